@@ -57,6 +57,7 @@ class Sys:
         if kind == "title":
             return w.name.title()
         if kind == "index":
+            # first slot holding the world (OrbitRegistry.tla: the slot the instance table points to)
             return 0 if s == "host" else o.tidal_objects.index(w)
         raise ValueError(kind)
 
@@ -70,7 +71,8 @@ def replay(S, beh, sabotage=False):
         try:
             if sabotage and act in ("SetE", "SetA") and st != beh[k - 1][1]:
                 sabotage = False
-            elif act == "AddMoon":
+            elif act in ("AddMoon", "ReAdd"):
+                # ReAdd: add_tidal_world for a world that is already in the orbit (the code warns and goes on)
                 o.add_tidal_world(moons[label[1]])
                 if a0 is None:
                     a0 = o.get_semi_major_axis(moons[label[1]])
@@ -86,7 +88,7 @@ def replay(S, beh, sabotage=False):
                 a_new = S.a_vals[label[3]]
                 # the triple is given as a, n or P; n and P are derived here with the TRUE masses of the pair (host + the moon the
                 # signature resolves to), so the orbit must store a_new whatever the form
-                tgt = st["raiser"] if label[1] == "host" else label[1]
+                tgt = beh[k - 1][1]["raiser"] if label[1] == "host" else label[1]
                 n_new = float(semi_a2orbital_motion(a_new, host.mass, moons[tgt].mass))
                 arg = {"a": ("semi_major_axis", a_new), "n": ("orbital_frequency", n_new), "P": ("orbital_period", float(rads2days(n_new)))}[via.replace("state_", "")]
                 if via.startswith("state_"):
@@ -116,29 +118,52 @@ def replay(S, beh, sabotage=False):
                 for nm in ("_eccentricities", "_semi_major_axes", "_orbital_frequencies", "_orbital_periods"):
                     if len(getattr(o, nm)) != n:
                         problems.append(["storage", "%s has %d entries for %d tidal objects" % (nm, len(getattr(o, nm)), n)])
-                for m in names:
-                    we = None if st["ecc"][m] == NOVAL else S.e_vals[st["ecc"][m]]
-                    wa = None if st["sma"][m] == NOVAL else S.a_vals[st["sma"][m]]
+                # the two look-up tables, exactly as the spec keeps them
+                by_inst = {m: int(o.all_tidal_world_orbit_index_by_instance.get(moons[m], 0)) for m in moons}
+                if by_inst != {m: int(st["byInst"][m]) for m in moons}:
+                    problems.append(["lookup", "index by instance = %s, OrbitRegistry.tla %s" % (by_inst, dict(st["byInst"]))])
+                for m in moons:
+                    got = {int(o.all_tidal_world_orbit_index_by_name.get(nm, 0)) for nm in {moons[m].name, moons[m].name.lower(), moons[m].name.title()}}
+                    if got != {int(st["byName"][m])}:
+                        problems.append(["lookup", "index by name of %s = %s, OrbitRegistry.tla %s" % (m, sorted(got), st["byName"][m])])
+                # raw slots
+                from TidalPy.constants import G
+                for i, m in enumerate(names, start=1):
+                    we = None if st["ecc"][i - 1] == NOVAL else S.e_vals[st["ecc"][i - 1]]
+                    wa = None if st["sma"][i - 1] == NOVAL else S.a_vals[st["sma"][i - 1]]
+                    ge, ga = o.get_eccentricity(i), o.get_semi_major_axis(i)
+                    if not close(ge, we):
+                        problems.append(["ecc", "get_eccentricity(slot %d, %s) = %r, OrbitRegistry.tla %r" % (i, m, ge, we)])
+                    if not close(ga, wa):
+                        problems.append(["sma", "get_semi_major_axis(slot %d, %s) = %r, OrbitRegistry.tla %r" % (i, m, ga, wa)])
+                    gn, gp = o.get_orbital_frequency(i), o.get_orbital_period(i)
+                    if (ga is None) != (gn is None) or (ga is None) != (gp is None):
+                        problems.append(["kepler", "%s (slot %d): semi-major axis %r but orbital frequency %r, period %r" % (m, i, ga, gn, gp)])
+                    elif ga is not None:
+                        k3 = float(gn) ** 2 * float(ga) ** 3 / (G * (host.mass + moons[m].mass))
+                        if abs(k3 - 1.0) > 1e-11 or abs(float(gp) * 86400.0 * float(gn) / (2 * np.pi) - 1.0) > 1e-11:
+                            problems.append(["kepler", "%s (slot %d): n^2 a^3 / (G (M_host + m)) = %.15g, P n / 2 pi = %.15g" % (m, i, k3, float(gp) * 86400.0 * float(gn) / (2 * np.pi))])
+                # every form of signature reads the slot the spec resolves it to
+                for m in sorted(set(names)):
                     for kind in ("instance", "name", "lower", "title", "index"):
+                        slot = int(st["byName"][m] if kind in ("name", "lower", "title") else st["byInst"][m])
+                        we = None if st["ecc"][slot - 1] == NOVAL else S.e_vals[st["ecc"][slot - 1]]
+                        wa = None if st["sma"][slot - 1] == NOVAL else S.a_vals[st["sma"][slot - 1]]
                         sg = S.sig(o, host, moons, m, kind)
                         ge, ga = o.get_eccentricity(sg), o.get_semi_major_axis(sg)
                         if not close(ge, we):
-                            problems.append(["ecc", "get_eccentricity(%s of %s) = %r, OrbitRegistry.tla %r" % (kind, m, ge, we)])
+                            problems.append(["ecc", "get_eccentricity(%s of %s) = %r, OrbitRegistry.tla %r (slot %d)" % (kind, m, ge, we, slot)])
                         if not close(ga, wa):
-                            problems.append(["sma", "get_semi_major_axis(%s of %s) = %r, OrbitRegistry.tla %r" % (kind, m, ga, wa)])
+                            problems.append(["sma", "get_semi_major_axis(%s of %s) = %r, OrbitRegistry.tla %r (slot %d)" % (kind, m, ga, wa, slot)])
+                    slot = int(st["byInst"][m])
+                    we = None if st["ecc"][slot - 1] == NOVAL else S.e_vals[st["ecc"][slot - 1]]
+                    wa = None if st["sma"][slot - 1] == NOVAL else S.a_vals[st["sma"][slot - 1]]
                     if not close(moons[m].eccentricity, we) or not close(moons[m].semi_major_axis, wa):
                         problems.append(["world_property", "%s.eccentricity / semi_major_axis = %r / %r, OrbitRegistry.tla %r / %r" % (m, moons[m].eccentricity, moons[m].semi_major_axis, we, wa)])
-                    gn, gp = o.get_orbital_frequency(moons[m]), o.get_orbital_period(moons[m])
-                    if (ga is None) != (gn is None) or (ga is None) != (gp is None):
-                        problems.append(["kepler", "%s: semi-major axis %r but orbital frequency %r, period %r" % (m, ga, gn, gp)])
-                    elif ga is not None:
-                        from TidalPy.constants import G
-                        k3 = float(gn) ** 2 * float(ga) ** 3 / (G * (host.mass + moons[m].mass))
-                        if abs(k3 - 1.0) > 1e-11 or abs(float(gp) * 86400.0 * float(gn) / (2 * np.pi) - 1.0) > 1e-11:
-                            problems.append(["kepler", "%s: n^2 a^3 / (G (M_host + m)) = %.15g, P n / 2 pi = %.15g" % (m, k3, float(gp) * 86400.0 * float(gn) / (2 * np.pi))])
                 if st["raiser"] != "none":
                     rm = st["raiser"]
-                    we = None if st["ecc"][rm] == NOVAL else S.e_vals[st["ecc"][rm]]
+                    rslot = int(st["byInst"][rm])
+                    we = None if st["ecc"][rslot - 1] == NOVAL else S.e_vals[st["ecc"][rslot - 1]]
                     for kind in ("instance", "name", "lower", "title", "index"):
                         ge = o.get_eccentricity(S.sig(o, host, moons, "host", kind))
                         if not close(ge, we):
